@@ -34,6 +34,9 @@ type Outcome struct {
 	// It must not depend on the process's history: the driver compares it between a warm worker
 	// and a fresh process evaluating the same index.
 	Digest uint64
+	// Cover names the elements of a finite, stated input universe this evaluation covered
+	// ("<universe>:<element>"); the driver reports how much of each universe a run reached.
+	Cover []string
 }
 
 // DigestOf hashes diagnostics and other outputs.
